@@ -182,6 +182,7 @@ func (sn *Snapshot) H(x *Exec, name, esort string) string {
 func (st *State) setH(name, esort, t string) string {
 	s := st.x.freshNamed(name, "(Array Int "+esort+")")
 	st.x.heapSorts[name] = esort
+	st.x.defined[s] = true
 	st.assume(eq(s, t))
 	st.heap[name] = s
 	return s
@@ -214,6 +215,7 @@ func (sn *Snapshot) G(x *Exec, name string) string {
 func (st *State) setG(name, t string) {
 	srt := st.x.ghostSort(name)
 	s := st.x.freshNamed(name, srt)
+	st.x.defined[s] = true
 	st.assume(eq(s, t))
 	st.ghost[name] = s
 }
@@ -248,6 +250,7 @@ type Exec struct {
 	coverDone bool
 	forks     int
 	preludeLoc map[string]bool
+	defined    map[string]bool // heap/ghost versions introduced by a defining equation (not by havoc)
 	props     []string
 	entryDecr    string
 	entryTargets map[string][]string
